@@ -156,6 +156,14 @@ def initSt (c : ClassD) : St :=
     wire := fun n => match c.port? n with | some _ => some 0 | none => none,
     prep := [] }
 
+/-- power-up state with the OUTPUT wires unknown (`none`): run from here, `evalD`/`execD` fail exactly when an output is read
+    before it has been written - the condition under which the x of the emitted `output reg` is unobservable (Proofs/C02Power) -/
+def initStU (c : ClassD) : St :=
+  { loc := fun _ => none,
+    att := lookup c.state,
+    wire := fun n => match c.port? n with | some p => if p.isOut then none else some 0 | none => none,
+    prep := [] }
+
 /-- `Wire.settleAll`: queued values become current, in program order (the last prepare of a wire wins) -/
 def settle (s : St) : St :=
   { s with wire := s.prep.foldl (fun f (n, v) => upd f n v) s.wire, prep := [] }
